@@ -307,6 +307,11 @@ func GenHistory(rng *rand.Rand, i int, transport string, o GenOpt) History {
 				class = strings.Replace(class, "sticky-error", "param-mismatch", 1)
 			}
 		}
+		if transport == "unix" && PipeLast[class] {
+			// on an unrepaired tree this call stalls; over a socket the stall is only seen
+			// by a wall-clock timeout (an inconclusive), the in-process pipe sees it exactly
+			class = "stream:complete"
+		}
 		rg := rand.New(rand.NewPCG(rng.Uint64(), uint64(j)+1))
 		c := genCall(rg, i, j, class, h.Cfg)
 		if o.Modes {
